@@ -410,3 +410,42 @@ def takes_of(bi, field_term):
 
 def all_take_blocks(bi):
     return [s.block for s in bi.sites if s.key in (("core::mem::swap", "swap"), ("core::mem::replace", "replace"), ("core::mem::take", "take"))]
+
+
+# ------------------------------------------------------------------------------------------------
+# a value of a crate-local struct, however it was built: `Adt::new(args)` or a struct literal
+# ------------------------------------------------------------------------------------------------
+
+def _subst(t, args):
+    if not isinstance(t, tuple):
+        return t
+    if t and t[0] == "param" and len(t) == 2 and isinstance(t[1], int):
+        return args[t[1] - 1] if 1 <= t[1] <= len(args) else t
+    return tuple(_subst(x, args) if isinstance(x, tuple) else x for x in t)
+
+
+def struct_view(M, t, adt_simple):
+    """{field name: term} when `t` denotes a freshly built `adt_simple` value: a struct literal, or a
+    call of a crate-local constructor whose body returns one struct literal of its parameters
+    (parameters substituted by the call's arguments).  None otherwise."""
+    if t is None:
+        return None
+    F = M.F
+    if t[0] == "agg" and isinstance(t[1], tuple) and t[1][0] == adt_simple:
+        for a in F.d["adts"]:
+            if a["cpath"].rsplit("::", 1)[-1] == adt_simple and a.get("variants"):
+                for v in a["variants"]:
+                    if v["name"] == t[1][1] and len(v["fields"]) == len(t[2]):
+                        return {f["name"]: x for f, x in zip(v["fields"], t[2])}
+        return None
+    if t[0] == "call" and t[1][0] == adt_simple:
+        for b in F.bodies:
+            if b.name == t[1][1] and b.kind == "AssocFn" and b.impl_self is not None and (M.adt_of_type(b.impl_self) or "").rsplit("::", 1)[-1] == adt_simple \
+                    and b.impl_trait is None:
+                rets = returned_values(M.info(b))
+                if len(rets) == 1:
+                    inner = struct_view(M, rets[0][3], adt_simple)
+                    if inner is not None:
+                        return {k: _subst(v, t[2]) for k, v in inner.items()}
+        return None
+    return None
